@@ -33,6 +33,11 @@ theorem checkAll_sound (dest : Path) (old new : Obs) (tmp : Path → Bool) :
     simp only [checkAll] at h
     simp only [runProg]
     exact ih _ k n h fails
+  | probeMode q m kont ih =>
+    intro k n h fails
+    simp only [checkAll] at h
+    simp only [runProg]
+    exact ih _ k n h fails
   | sys r kont ih =>
     intro k n h fails
     simp only [checkAll, Bool.and_eq_true] at h
